@@ -39,7 +39,8 @@ def plan(tier, seed):
 def minimums(tier):
     return {"inproc.O0.decodes": 12000, "inproc.O1.decodes": 12000, "prefix.O0": 1500, "prefix.O1": 1500, "prefix.tail": 8000,
             "datastream.invariant_evals": 100000, "datastream.get_mem_evals": 100000,
-            "cli.O0.runs": 200, "cli.O1.runs": 200, "cli.prefix_runs": 60, "steps.counted": 1000000}
+            "cli.O0.runs": 200, "cli.O1.runs": 200, "cli.prefix_runs": 60, "steps.counted": 1000000,
+            "cli.dir_prefix_runs": 40}
 
 
 def small_pel(rng, u, reg):
@@ -250,6 +251,43 @@ def run_cli(spec, ctx, rng, u, reg):
         cases += [(t, d, None) for t, d in rng.sample(ed, min(8, len(ed)))]
         cases += [(("random", 0), bytes(rng.randrange(256) for _ in range(rng.randrange(0, 120))), None)]
         cases += [(("wellformed",), data, None)]
+    # directory modes that display PELs in full (-a, -a -x, -j): a directory of proper prefixes shows / exports nothing
+    import shutil
+    for k in range(max(2, spec["n"] // 40)):
+        pel = tail_pel(rng, u, reg, TAILS[(k + spec["shard"]) % len(TAILS)]) if k % 2 else small_pel(rng, u, reg)
+        data = pel.encode()
+        pdir, odir = os.path.join(root, "prefixes%d" % k), os.path.join(root, "prefixes%d-out" % k)
+        for x in (pdir, odir):
+            shutil.rmtree(x, ignore_errors=True)
+            os.makedirs(x)
+        cuts = sorted(set(rng.sample(range(1, len(data)), min(30, len(data) - 1))) | {len(data) - 1, len(data) - 2, len(data) - 4})
+        for c in cuts:
+            with open(os.path.join(pdir, "cut%04d.pel" % c), "wb") as f:
+                f.write(data[:c])
+        for argv in (["-a"], ["-a", "-x"], ["--all-pels", "--hex", "-r"], ["-j", "-o", odir]):
+            ctx.current = {"argv": argv + ["-E"], "seed_pel": data, "cuts": cuts, "python_O": opt}
+            ctx.case(repr(argv) + data.hex(), True)
+            p = harness.cli_sub(["-p", pdir, "-E"] + argv, optimize=opt, plugins=True, registry=True, timeout=300)
+            ctx.count("cli.dir_prefix_runs")
+            if p is None:
+                ctx.violation("C05/no-prompt-termination", "peltool %s on a directory of %d truncated PELs did not finish within 300 s" % (argv, len(cuts)))
+                continue
+            out, err = p.stdout.decode("utf-8", "replace"), p.stderr.decode("utf-8", "replace")
+            shown = out.count("PEL Begin") if "-x" in argv or "--hex" in argv else None
+            if argv[0] == "-j":
+                shown = len(os.listdir(odir))
+            elif shown is None:
+                try:
+                    shown = len(json.loads(out))
+                except ValueError:
+                    shown = -1
+            if p.returncode not in (0, 1) or "Traceback (most recent call last)" in err:
+                ctx.violation("C05/cli-traceback", "peltool %s on truncated PELs: rc=%d %r" % (" ".join(argv), p.returncode, err[-400:]))
+            elif shown != 0:
+                ctx.violation("C05/prefix-decoded", "peltool%s %s displayed / exported %s of %d proper prefixes of a well-formed "
+                              "%d-byte PEL as PELs" % (" (python -O)" if opt else "", " ".join(argv), shown, len(cuts), len(data)))
+        shutil.rmtree(pdir, ignore_errors=True)
+        shutil.rmtree(odir, ignore_errors=True)
     for tag, d, prefix_of in cases[:spec["n"]]:
         n += 1
         path = os.path.join(root, "case%d.pel" % n)
